@@ -271,16 +271,17 @@ def run(ctx):
     if thorough:
         cases = [c for c in cases if not (c['fam'] == 'loop' and len(c['fidx']) >= 4 and ctx.rng.random() > 0.25)]
     else:
-        # quick: loop family exhaustive for <= 2 inputs plus all orders of three failure classes, seeded sample of the law groups
+        # quick: seeded sample (55%) of the loop family (all lists of <= 2 inputs + all orders of three failure classes) and of the
+        # format/bind/argerr families (40%), 12 law groups; thorough replays everything up to 3 inputs and a quarter of the 4-input lists
         groups = sorted({c['group'] for c in cases if c['fam'].startswith('law:')})
-        keepg = set(ctx.rng.sample(groups, min(len(groups), 16))) | {'negnum', 'dashfile', 'dashfile2', 'dashprog'}
+        keepg = set(ctx.rng.sample(groups, min(len(groups), 12))) | {'negnum', 'dashfile', 'dashfile2', 'dashprog'}
         kept = []
         for c in cases:
             if c['fam'].startswith('law:') and c['group'] not in keepg:
                 continue
-            if c['fam'] == 'loop' and len(c['fidx']) <= 2 and ctx.rng.random() > 0.7:
+            if c['fam'] == 'loop' and ctx.rng.random() > 0.55:
                 continue
-            if c['fam'] in ('bind', 'argerr', 'format') and ctx.rng.random() > 0.5:
+            if c['fam'] in ('bind', 'argerr', 'format') and ctx.rng.random() > 0.4:
                 continue
             kept.append(c)
         ctx.cov['gen_e2e_emitted'] = len(cases)
@@ -297,7 +298,7 @@ def run(ctx):
     if len(gen_events) != len(cases):
         raise Inconclusive('replay lost cases')
     # TV driver: seeded random longer/mixed command lines
-    nrand = 2000 if thorough else 250
+    nrand = 2000 if thorough else 200
     rpath = os.path.join(ctx.build, 'rand_events.ndjson')
     t0 = time.time()
     ctx.run([binp, 'rand', str(nrand), rpath], check=True, timeout=1500)
